@@ -1,9 +1,24 @@
 import Cfi.Files
 import Spec.C05
-/-! C05 — property theorems (skip-empty clause; the round-trip theorem builds on
-the per-kind render/parse laws of C01 and is added as those are completed). -/
+import Proofs.RegLine
+import Proofs.RegClassify
+import Props.C04
+/-!
+C05 — property theorems.
+
+`main`: for EVERY register list and EVERY element sequence inside the decidable
+domain `Spec.C05.inDomain` (the same predicate the check evaluates per case),
+the model's write-then-read cycle returns the sequence itself and the file-level
+equality holds.  The per-record fact "the data-only line reads back to the
+data" is part of that domain (`typedOk`, decided by the model's own field
+renderer and parser — for integers, literals and missing values it is a theorem,
+`Props.C01.law_int/law_lit/readText_null`); everything the file layer adds —
+identifier column, composite line, one line per register, splitting the written
+text into lines, dispatch to the type that wrote the line, defaults kept
+verbatim, order and count — is proved here for all inputs.
+-/
 namespace Props.C05
-open Cfi Spec.C05
+open Cfi Cfi.Text Spec.C05
 
 /-- a register whose values are all `None` writes nothing, in any storage -/
 theorem empty_writes_nothing (r : RegDef) (st : Storage) (data : List Val)
@@ -13,5 +28,373 @@ theorem empty_writes_nothing (r : RegDef) (st : Storage) (data : List Val)
 /-- zero, the empty string and `0.0` are data: they do not make a register empty -/
 example : RegDef.isEmpty [.int 0] = false ∧ RegDef.isEmpty [.str []] = false ∧
     RegDef.isEmpty [.dbl (.fin false 0 (-1074))] = false ∧ RegDef.isEmpty [.none, .none] = true := by decide
+
+/-! ### lines -/
+
+/-- what a written file consists of: non-empty lines without inner newlines, all
+but possibly the last ending in a newline -/
+def LinesOk : List (List Char) → Prop
+  | [] => True
+  | [l] => l ≠ [] ∧ ¬ '\n' ∈ l.dropLast
+  | l :: ls => l ≠ [] ∧ l.getLast? = some '\n' ∧ ¬ '\n' ∈ l.dropLast ∧ LinesOk ls
+
+theorem splitLines_line (body rest : List Char) (hb : ¬ '\n' ∈ body) :
+    splitLines (body ++ '\n' :: rest) = (body ++ ['\n']) :: splitLines rest := by
+  induction body with
+  | nil => simp [splitLines]
+  | cons c body ih =>
+    have hc : c ≠ '\n' := fun e => hb (by simp [e])
+    have hb' : ¬ '\n' ∈ body := fun e => hb (by simp [e])
+    simp only [List.cons_append, splitLines, hc, if_false, ih hb']
+
+theorem splitLines_single (l : List Char) (hne : l ≠ []) (hb : ¬ '\n' ∈ l) : splitLines l = [l] := by
+  induction l with
+  | nil => exact absurd rfl hne
+  | cons c cs ih =>
+    have hc : c ≠ '\n' := fun e => hb (by simp [e])
+    have hb' : ¬ '\n' ∈ cs := fun e => hb (by simp [e])
+    cases cs with
+    | nil => simp [splitLines, hc]
+    | cons d ds => simp only [splitLines, hc, if_false] at ih ⊢; simp [ih (by simp) hb']
+
+theorem eq_dropLast_append (l : List Char) (c : Char) (h : l.getLast? = some c) : l = l.dropLast ++ [c] := by
+  have hne : l ≠ [] := by intro e; subst e; simp at h
+  have := List.dropLast_concat_getLast hne
+  rw [List.getLast?_eq_some_getLast hne] at h
+  injection h with h
+  rw [h] at this
+  exact this.symm
+
+theorem splitLines_flatten (ls : List (List Char)) (h : LinesOk ls) : splitLines ls.flatten = ls := by
+  induction ls with
+  | nil => rfl
+  | cons l ls ih =>
+    cases ls with
+    | nil =>
+      obtain ⟨hne, hb⟩ := h
+      simp only [List.flatten_cons, List.flatten_nil, List.append_nil]
+      by_cases hl : l.getLast? = some '\n'
+      · have := eq_dropLast_append l '\n' hl
+        rw [this]
+        have := splitLines_line l.dropLast [] hb
+        simpa [splitLines] using this
+      · apply splitLines_single l hne
+        intro hmem
+        have hsplit := List.dropLast_concat_getLast hne
+        rw [← hsplit] at hmem
+        rcases List.mem_append.mp hmem with h1 | h1
+        · exact hb h1
+        · simp only [List.mem_singleton] at h1
+          apply hl
+          rw [List.getLast?_eq_some_getLast hne, ← h1]
+    | cons l2 ls =>
+      obtain ⟨_, hl, hb, hrest⟩ := h
+      have := eq_dropLast_append l '\n' hl
+      rw [List.flatten_cons, this, List.append_assoc]
+      simp only [List.singleton_append]
+      rw [splitLines_line _ _ hb, ih hrest]
+
+end Props.C05
+
+namespace Props.C05
+open Cfi Cfi.Text Spec.C05
+
+/-! ### what `unambiguous` and `typedOk` give -/
+
+structure RegFacts (regs : List RegDef) (j : Nat) (r : RegDef) : Prop where
+  hid : r.ident.length ≤ r.digits
+  hstart : ∀ f ∈ r.fields, r.digits ≤ f.start
+  hdis : Cfi.Disjoint r.fields
+  hnl : ¬ '\n' ∈ r.ident
+  hearlier : ∀ i ri, i < j → regs[i]? = some ri →
+    ri.digits ≤ firstDataStart r ∧ isInfix ri.ident ((identColumns r).take ri.digits) = false
+
+theorem regFacts (regs : List RegDef) (h : unambiguous regs = true) (j : Nat) (r : RegDef)
+    (hj : regs[j]? = some r) : RegFacts regs j r := by
+  have hjl : j < regs.length := by
+    rcases Nat.lt_or_ge j regs.length with h1 | h1
+    · exact h1
+    · rw [List.getElem?_eq_none h1] at hj; exact absurd hj (by simp)
+  simp only [unambiguous, List.all_eq_true, List.mem_range] at h
+  have hj' := h j hjl
+  simp only [hj, Bool.and_eq_true, decide_eq_true_eq, List.all_eq_true, List.mem_range, Bool.not_eq_true',
+    Bool.not_eq_eq_eq_not, Bool.not_true] at hj'
+  obtain ⟨⟨⟨⟨⟨⟨h1, h2⟩, h3⟩, _⟩, _⟩, h6⟩, h7⟩ := hj'
+  refine ⟨h1, h2, Disjoint_of_bool _ h3, ?_, ?_⟩
+  · intro hm
+    have : r.ident.contains '\n' = true := by simpa using hm
+    rw [this] at h6; exact absurd h6 (by simp)
+  · intro i ri hi hri
+    have := h7 i hi
+    simp only [hri, Bool.and_eq_true, decide_eq_true_eq, Bool.not_eq_true'] at this
+    exact this
+
+theorem isEmpty_false_of_any (data : List Val) (h : data.any (fun v => v != Val.none) = true) :
+    RegDef.isEmpty data = false := by
+  simp only [List.any_eq_true, bne_iff_ne, ne_eq] at h
+  obtain ⟨v, hv, hne⟩ := h
+  simp only [RegDef.isEmpty, Bool.eq_false_iff, ne_eq, List.all_eq_true, beq_iff_eq]
+  exact fun hall => hne (hall v hv)
+
+/-- **One typed register**: what it writes is one proper line, and reading that
+line through the dispatcher gives back the very element. -/
+theorem typed_elem (regs : List RegDef) (hamb : unambiguous regs = true) (j : Nat) (r : RegDef)
+    (hj : regs[j]? = some r) (hdel : r.delimiter = .none) (data : List Val) (ht : typedOk r data = true) :
+    ∃ out, writeRElem regs .text (.typed j data) = .ok (some (.str (out ++ ['\n']))) ∧
+      ¬ '\n' ∈ out ∧ elemOfLine regs (out ++ ['\n']) = .ok (.typed j data) := by
+  obtain ⟨hid, hstart, hdis, hnl, hearlier⟩ := regFacts regs hamb j r hj
+  simp only [typedOk, Bool.and_eq_true, beq_iff_eq, List.all_eq_true] at ht
+  obtain ⟨⟨⟨hlen, hdom⟩, hany⟩, hw⟩ := ht
+  have hlen' : r.fields.length = data.length := hlen.symm
+  have hfits : ∀ fv ∈ r.fields.zip data, Spec.C02.fits fv.1 fv.2 = true := by
+    intro fv hfv
+    have := hdom fv hfv
+    simp only [Spec.C01.fieldInDomain, Bool.and_eq_true] at this
+    exact this.1.1
+  obtain ⟨rs, hr⟩ := all2_rendersTo_of_fits r.fields data hlen' hfits
+  have hne := isEmpty_false_of_any data hany
+  obtain ⟨out, hout, hwd, hrd, hslice, hspans, hread⟩ := r.regLine data rs hdel hlen' hr hid hstart hdis hne
+  cases hwp : writePos r.fields data with
+  | error e => simp [hwp] at hw
+  | ok w =>
+    simp only [hwp, Bool.and_eq_true, beq_iff_eq, Bool.not_eq_true', ] at hw
+    obtain ⟨hback, hone⟩ := hw
+    -- renderings are newline-free because the data-only line is
+    have hwf : ∃ o', writeFields r.fields data [] = .ok o' ∧ w = o' ++ ['\n'] := by
+      simp only [writePos, Except.map] at hwp
+      cases hwf : writeFields r.fields data [] with
+      | error e => simp [hwf] at hwp
+      | ok o' => simp only [hwf] at hwp; injection hwp with hwp; exact ⟨o', rfl, hwp.symm⟩
+    obtain ⟨o', ho', hwo⟩ := hwf
+    have hrs_nl : ∀ r' ∈ rs, ¬ '\n' ∈ r' := by
+      intro r' hr' hm
+      have := rendering_chars r.fields data rs hlen' hr hdis o' ho' r' hr' '\n' hm
+      rw [hwo] at hone
+      simp at hone
+      exact hone this
+    have hR : All2 (fun (fv : Field × Val) r => rendersTo fv.1 fv.2 r)
+        ((r.idField :: r.fields).zip (Val.str r.ident :: data)) (ljust r.ident r.digits ' ' :: rs) := by
+      simp only [List.zip_cons_cons]
+      exact All2.cons (R := fun (fv : Field × Val) r => rendersTo fv.1 fv.2 r) (a := (r.idField, Val.str r.ident))
+        (r.idField_rendersTo hid) hr
+    have hD : Cfi.Disjoint (r.idField :: r.fields) := by
+      refine ⟨fun g hg => Or.inl ?_, hdis⟩
+      have := hstart g hg
+      simpa [RegDef.idField, Field.mk'] using this
+    have hout_nl : ¬ '\n' ∈ out := by
+      intro hm
+      rcases out_chars _ _ _ (by simp [hlen']) hR hD out hout '\n' hm with h1 | ⟨r', hr', hc⟩
+      · exact absurd h1 (by decide)
+      · rcases List.mem_cons.mp hr' with rfl | hr'
+        · simp only [ljust, List.mem_append, List.mem_replicate] at hc
+          rcases hc with hc | hc
+          · exact hnl hc
+          · exact absurd hc.2 (by decide)
+        · exact hrs_nl r' hr' hc
+    refine ⟨out, ?_, hout_nl, ?_⟩
+    · simp [writeRElem, hj, hwd]
+    · -- dispatch: the first matching type is `j`
+      have hcls : classifyText regs (out ++ ['\n']) = some j := by
+        have hjl : j < regs.length := by
+          rcases Nat.lt_or_ge j regs.length with h1 | h1
+          · exact h1
+          · rw [List.getElem?_eq_none h1] at hj; exact absurd hj (by simp)
+        have hrj : regs[j] = r := by
+          rw [List.getElem?_eq_getElem hjl] at hj; exact Option.some.inj hj
+        unfold classifyText
+        rw [List.findIdx?_eq_some_iff_getElem]
+        refine ⟨hjl, ?_, ?_⟩
+        · rw [hrj]
+          simp only [RegDef.matchesText]
+          have hk : r.digits ≤ firstDataStart r := by
+            -- either no field (then equal) or every field starts after the window
+            unfold firstDataStart
+            have : ∀ (fs : List Field) (m : Nat), r.digits ≤ m → (∀ f ∈ fs, r.digits ≤ f.start) →
+                r.digits ≤ fs.foldl (fun m f => min m f.start) m := by
+              intro fs
+              induction fs with
+              | nil => intro m hm _; exact hm
+              | cons f fs ih =>
+                intro m hm hs
+                exact ih _ (Nat.le_min.mpr ⟨hm, hs f (by simp)⟩) (fun g hg => hs g (by simp [hg]))
+            apply this _ _ _ hstart
+            have : ∀ (fs : List Field) (m : Nat), m ≤ fs.foldl (fun m f => max m f.stop) m := by
+              intro fs
+              induction fs with
+              | nil => intro m; exact Nat.le_refl _
+              | cons f fs ih => intro m; exact Nat.le_trans (Nat.le_max_left _ _) (ih _)
+            exact this _ _
+          rw [r.window_eq data rs hlen' hr hid hstart hdis out hout hslice r.digits hk]
+          have : (identColumns r).take r.digits = ljust r.ident r.digits ' ' := by
+            apply List.ext_getElem?
+            intro i
+            rw [List.getElem?_take, identColumns, getElem?_ljust, getElem?_ljust]
+            by_cases h1 : i < r.digits
+            · have : i < max r.digits (firstDataStart r) := by omega
+              simp [h1, this]
+            · have : ¬ i < r.ident.length := by omega
+              simp [h1, this]
+          rw [this]
+          exact isInfix_ljust _ _
+        · intro i hi
+          have hil : i < regs.length := by omega
+          obtain ⟨h1, h2⟩ := hearlier i regs[i] hi (by simp [hil])
+          simp only [RegDef.matchesText, Bool.not_eq_true]
+          rw [r.window_eq data rs hlen' hr hid hstart hdis out hout hslice _ h1]
+          exact h2
+      simp only [elemOfLine, hcls, hj, hrd, Except.map]
+      rw [hread w hwp, hback]
+
+end Props.C05
+
+namespace Props.C05
+open Cfi Cfi.Text Spec.C05
+
+/-! ### the whole file -/
+
+/-- the text an element contributes -/
+def textOf : Option Data → List Char
+  | some (.str s) => s
+  | _ => []
+
+theorem linesOk_cons (l : List Char) (ls : List (List Char)) (hne : l ≠ []) (hnl : ¬ '\n' ∈ l.dropLast)
+    (hlast : ls ≠ [] → l.getLast? = some '\n') (h : LinesOk ls) : LinesOk (l :: ls) := by
+  cases ls with
+  | nil => exact ⟨hne, hnl⟩
+  | cons l2 ls => exact ⟨hne, hlast (by simp), hnl, h⟩
+
+/-- every in-domain element sequence writes proper lines that read back, one by
+one, to the same elements -/
+theorem elems_lines (regs : List RegDef) (hamb : unambiguous regs = true)
+    (hdel : ∀ r ∈ regs, r.delimiter = .none) (es : List RElem) (hes : elemsOk regs es = true) :
+    ∃ lines : List (List Char),
+      es.mapM (writeRElem regs .text) = .ok (lines.map fun l => some (.str l)) ∧
+      lines.mapM (elemOfLine regs) = .ok es ∧ LinesOk lines ∧ lines.length = es.length := by
+  induction es with
+  | nil => exact ⟨[], rfl, rfl, trivial, rfl⟩
+  | cons e es ih =>
+    cases e with
+    | typed j data =>
+      simp only [elemsOk, Bool.and_eq_true] at hes
+      obtain ⟨hreg, hrest⟩ := hes
+      obtain ⟨lines, h1, h2, h3, h4⟩ := ih hrest
+      cases hj : regs[j]? with
+      | none => simp [hj] at hreg
+      | some r =>
+        simp only [hj] at hreg
+        obtain ⟨out, hw, hnl, hrd⟩ := typed_elem regs hamb j r hj (hdel r (List.mem_of_getElem? hj)) data hreg
+        refine ⟨(out ++ ['\n']) :: lines, ?_, ?_, ?_, by simp [h4]⟩
+        · simp only [List.mapM_cons, hw, h1, bind, Except.bind, pure, Except.pure, List.map_cons]
+        · simp only [List.mapM_cons, hrd, h2, bind, Except.bind, pure, Except.pure]
+        · exact linesOk_cons _ _ (by simp) (by simpa using hnl) (fun _ => by simp) h3
+    | dflt d =>
+      cases d with
+      | bytes b => simp [elemsOk] at hes
+      | str l =>
+        simp only [elemsOk, Bool.and_eq_true] at hes
+        obtain ⟨hd, hrest⟩ := hes
+        obtain ⟨lines, h1, h2, h3, h4⟩ := ih hrest
+        simp only [defaultOk, Bool.and_eq_true, Bool.not_eq_true', beq_iff_eq] at hd
+        obtain ⟨⟨hne, hcls⟩, hshape⟩ := hd
+        have hne' : l ≠ [] := by intro e; subst e; simp at hne
+        refine ⟨l :: lines, ?_, ?_, ?_, by simp [h4]⟩
+        · simp only [List.mapM_cons, writeRElem, h1, bind, Except.bind, pure, Except.pure, List.map_cons]
+        · simp only [List.mapM_cons, Props.C04.default_verbatim regs l hcls, h2, bind, Except.bind, pure, Except.pure]
+        · apply linesOk_cons _ _ hne' ?_ ?_ h3
+          · split at hshape
+            · simpa using hshape
+            · simp only [Bool.and_eq_true, beq_iff_eq, Bool.not_eq_true'] at hshape
+              simpa using hshape.2
+          · intro hl
+            have : es.isEmpty = false := by
+              cases es with
+              | nil => simp at h4; subst h4; exact absurd rfl hl
+              | cons _ _ => rfl
+            simp only [this, Bool.false_eq_true, if_false, Bool.and_eq_true, beq_iff_eq] at hshape
+            exact hshape.1
+
+theorem flatMap_lines (g : Option Data → List Char) (hg : ∀ l, g (some (.str l)) = l) (lines : List (List Char)) :
+    (lines.map fun l => some (Data.str l)).flatMap g = lines.flatten := by
+  induction lines with
+  | nil => rfl
+  | cons l ls ih => simp [List.flatMap_cons, ih, hg]
+
+/-- the file writer, one element at a time -/
+theorem write_cons (regs : List RegDef) (e : RElem) (es : List RElem) :
+    writeRegFileText regs (e :: es) =
+      (do let p ← writeRElem regs .text e
+          let rest ← writeRegFileText regs es
+          pure (textOf p ++ rest)) := by
+  simp only [writeRegFileText, List.mapM_cons, bind, Except.bind]
+  cases writeRElem regs .text e with
+  | error x => rfl
+  | ok p =>
+    cases es.mapM (writeRElem regs .text) with
+    | error x => rfl
+    | ok parts =>
+      simp only [pure, Except.pure, List.flatMap_cons]
+      congr 2
+
+/-- **C05, for every input in the domain**: `read(write(D)) = D` — same number of
+elements, same types, equal data in the same order, and the file-level equality
+agrees. -/
+theorem main (regs : List RegDef) (es : List RElem) (h : inDomain regs es = true) :
+    ∃ o, cycle regs es = some o ∧ holds es o = true := by
+  simp only [inDomain, Bool.and_eq_true, List.all_eq_true, beq_iff_eq] at h
+  obtain ⟨⟨⟨_, hdel⟩, hamb⟩, hes⟩ := h
+  obtain ⟨lines, h1, h2, h3, _⟩ := elems_lines regs hamb hdel es hes
+  have hw : writeRegFileText regs (RElem.placeholder :: es) = .ok lines.flatten := by
+    simp only [writeRegFileText, List.mapM_cons, RElem.placeholder, writeRElem, h1, bind, Except.bind, pure,
+      Except.pure, List.flatMap_cons]
+    rw [flatMap_lines _ (fun l => rfl)]
+    rfl
+  have hr : readRegFileText regs lines.flatten = .ok (RElem.placeholder :: es) := by
+    rw [Props.C04.main, Spec.C04.expected, splitLines_flatten lines h3, h2]
+    rfl
+  refine ⟨⟨lines.flatten, RElem.placeholder :: es, true⟩, ?_, ?_⟩
+  · simp [cycle, hw, hr]
+  · simp [holds]
+
+/-- **All-None registers leave no trace**: for any element sequence with valid
+type indices, the written text is that of the sequence without its empty
+registers. -/
+theorem skip_empty (regs : List RegDef) (es : List RElem)
+    (hidx : ∀ e ∈ es, ∀ j d, e = .typed j d → (regs[j]?).isSome = true) :
+    writeRegFileText regs es = writeRegFileText regs (es.filter fun e => match e with
+      | .typed _ data => !RegDef.isEmpty data
+      | _ => true) := by
+  induction es with
+  | nil => rfl
+  | cons e es ih =>
+    have ih' := ih (fun e' he' => hidx e' (by simp [he']))
+    cases e with
+    | dflt d =>
+      simp only [List.filter_cons, if_true]
+      rw [write_cons, write_cons, ih']
+    | typed j data =>
+      by_cases hemp : RegDef.isEmpty data = true
+      · have hsome := hidx (.typed j data) (by simp) j data rfl
+        obtain ⟨r, hr⟩ := Option.isSome_iff_exists.mp hsome
+        have hwr : writeRElem regs .text (.typed j data) = .ok none := by
+          simp [writeRElem, hr, empty_writes_nothing r .text data hemp]
+        simp only [List.filter_cons, hemp, Bool.not_true, Bool.false_eq_true, if_false]
+        rw [write_cons, hwr, ← ih']
+        cases writeRegFileText regs es <;> rfl
+      · have hemp' : RegDef.isEmpty data = false := by simpa using hemp
+        simp only [List.filter_cons, hemp', Bool.not_false, if_true]
+        rw [write_cons, write_cons, ih']
+
+end Props.C05
+
+namespace Props.C05
+open Cfi Cfi.Text Spec.C05
+
+/-- non-vacuity: two register types, a typed register with a zero and a missing
+integer, a free-text line and a second typed register are inside the domain of `main` -/
+example :
+    let rA : RegDef := ⟨"AB".toList, 3, [Field.mk' .int 4 3, Field.mk' .lit 3 8, Field.mk' .int 2 12], .none⟩
+    let rB : RegDef := ⟨"C".toList, 3, [Field.mk' .int 2 3], .none⟩
+    inDomain [rA, rB] [.typed 0 [.int 0, .str ['x'], .none], .dflt (.str "* note\n".toList), .typed 1 [.int 7]] = true := by
+  decide +kernel
 
 end Props.C05
